@@ -18,7 +18,9 @@ def repairs():
             txt = txt[:167] + "..."
         by.setdefault(m.group(1), []).append("`%s` %s" % (m.group(2), txt))
     n = sum(len(v) for v in by.values())
-    out = ["%d `fix:` commits are recorded (the baseline suite, 777/777, was re-run on /repo after every batch):" % n, ""]
+    hashes = {re.match(r"fixed: property=C\d+ (\w+) ", l).group(1) for l in k["fixed"] if re.match(r"fixed: property=C\d+ (\w+) ", l)}
+    out = ["%d repairs by %d distinct `fix:` commits are recorded (a commit that repairs a defect seen by two properties is listed under both; "
+           "the baseline suite, 777/777, was re-run on /repo after every batch):" % (n, len(hashes)), ""]
     for p in sorted(by):
         out.append("* **%s** — %s" % (p, "; ".join(by[p])))
     return "\n".join(out)
